@@ -7,6 +7,11 @@ CONSTANTS MaxLen = 2
  Stride = 1
  LineOff = 0
  LineInGroupFix = TRUE
+ Truncs = {"none"}
+ DeltaStamp = "token"
+ NumberEof = TRUE
+ EofStamp = TRUE
+ RecordedEofDev = FALSE
  RecordedLineDev = 0
  Emit = FALSE
 INVARIANTS SameButRecorded SameProbes
